@@ -27,8 +27,13 @@ pub struct Extent {
 #[derive(Debug)]
 pub struct Layout {
     pub version: u32,
+    /// size of the header including optional slots announced by the global flags
     pub header_size: u64,
+    /// size of the header without the optional slots
+    pub base_header_size: u64,
     pub extents: Vec<Extent>,
+    /// every top-level header slot: (name, count, offset, element size)
+    pub top: Vec<(String, u32, u32, u64)>,
 }
 
 #[derive(Debug)]
@@ -82,7 +87,6 @@ pub fn ribbon_size(v: u32) -> u64 {
     if v < 272 { 168 } else { 172 }
 }
 pub const PARTICLE_SIZE: u64 = 544;
-pub const BLOCK: u64 = 28; // interpolation u16, global sequence i16, three (count, offset) pairs
 
 struct Walk<'a> {
     b: &'a [u8],
@@ -229,6 +233,7 @@ pub fn walk_m2(b: &[u8]) -> Result<(Layout, Vec<Problem>), String> {
     top.push(("ribbon_emitters", ribbons.0, ribbons.1, ribbon_size(v)));
     let particles = r.pair()?;
     top.push(("particle_emitters", particles.0, particles.1, PARTICLE_SIZE));
+    let base_header_size = r.p as u64;
     // optional trailing header slots announced by global flags
     if v >= 260 && flags & 0x0800_0000 != 0 {
         match r.pair() {
@@ -236,7 +241,7 @@ pub fn walk_m2(b: &[u8]) -> Result<(Layout, Vec<Problem>), String> {
             Err(_) => {
                 r.p += 8;
                 w.problems.push(Problem {
-                    class: "header-slot-missing:blend_map_overrides".into(),
+                    class: "optional-header-slot:missing".into(),
                     detail: "global flag 0x08000000 announces a blend_map_overrides slot but the file ends before it".into(),
                 });
             }
@@ -248,7 +253,7 @@ pub fn walk_m2(b: &[u8]) -> Result<(Layout, Vec<Problem>), String> {
             Err(_) => {
                 r.p += 8;
                 w.problems.push(Problem {
-                    class: "header-slot-missing:texture_combiner_combos".into(),
+                    class: "optional-header-slot:missing".into(),
                     detail: "global flag 0x08 announces a texture_combiner_combos slot but the file ends before it".into(),
                 });
             }
@@ -394,9 +399,30 @@ pub fn walk_m2(b: &[u8]) -> Result<(Layout, Vec<Problem>), String> {
     let layout = Layout {
         version: v,
         header_size,
+        base_header_size,
         extents: w.ext.clone(),
+        top: top.iter().map(|(n, c, o, e)| (n.to_string(), *c, *o, *e)).collect(),
     };
     let mut problems = w.problems;
+    // data placed where the announced optional slots must be: one class whatever section it is
+    if header_size > base_header_size
+        && let Some(x) = layout
+            .extents
+            .iter()
+            .filter(|x| x.start >= base_header_size && x.start < header_size)
+            .min_by_key(|x| x.start)
+    {
+        problems.insert(
+            0,
+            Problem {
+                class: "optional-header-slot:overlapped-by-data".into(),
+                detail: format!(
+                    "global flags announce optional header slots at {base_header_size}..{header_size}, but {} starts at {}",
+                    x.name, x.start
+                ),
+            },
+        );
+    }
     problems.extend(overlaps(&layout.extents, header_size));
     Ok((layout, problems))
 }
@@ -441,6 +467,28 @@ pub fn overlaps(ext: &[Extent], header_size: u64) -> Vec<Problem> {
         }
     }
     out
+}
+
+/// first run of bytes after the header that no extent covers: (start, end, top-level section
+/// that ends where the run starts)
+pub fn first_gap(l: &Layout, file_len: u64) -> Option<(u64, u64, String)> {
+    let mut e: Vec<&Extent> = l.extents.iter().collect();
+    e.sort_by_key(|x| (x.start, x.end));
+    let mut pos = l.header_size;
+    let mut after = "header".to_string();
+    for x in e {
+        if x.start > pos {
+            return Some((pos, x.start, after));
+        }
+        if x.end >= pos {
+            pos = x.end;
+            after = x.name.split(['[', '.']).next().unwrap_or("").to_string();
+        }
+    }
+    if pos < file_len {
+        return Some((pos, file_len, after));
+    }
+    None
 }
 
 /// name of the extent that contains byte `pos` (for classifying byte differences)
@@ -497,7 +545,9 @@ pub fn walk_skin(b: &[u8], new_layout: bool) -> Result<(Layout, Vec<Problem>), S
     let layout = Layout {
         version,
         header_size,
+        base_header_size: header_size,
         extents: w.ext.clone(),
+        top: vec![],
     };
     let mut problems = w.problems;
     problems.extend(overlaps(&layout.extents, header_size));
